@@ -361,7 +361,14 @@ class C09(Check):
             out = real_reference_run(which, st, _decimal_text(ref))
             info['observed'] = out
             want = float(ref)
-            return out.get('error') is not None or not any(abs(z - want) < 1e-9 for z in out.get('zero_levels', [])), info
+            err = out.get('error')
+            if failure.get('kind') == 'exception':
+                # the same kind of failure must show on the real code; "KeyError: k" only says that the
+                # model's level is not in the curve (outside the property) and reproduces nothing
+                return err is not None and err.split(':')[0] == (failure.get('detail') or '').split(':')[0] and not err.startswith('KeyError'), info
+            if err is not None:
+                return not err.startswith('KeyError'), info
+            return not any(abs(z - want) < 1e-9 for z in out.get('zero_levels', [])), info
         if h.startswith('R_noref'):
             sc = scale_for(step)
             rec = planted(scale=sc)
